@@ -21,6 +21,8 @@ structure PS where
   ids : Gen                  -- `stmt_id_gen`
   vars : Gen                 -- `var_name_gen`
   out : List FStmt           -- `new_statements`
+  newVars : List (List Char) := []    -- ghost: every name `var_name_gen` has handed out
+  newIds : List (List Char) := []     -- ghost: every id `stmt_id_gen` has handed out
   deriving Repr
 
 /-- `UniqueNameGenerator.__call__` never fails (C13.generator_total); the fall-back is never taken -/
@@ -31,11 +33,11 @@ def genCall (g : Gen) (b : List Char) : Gen × List Char :=
 
 def PS.freshVar (s : PS) (b : String) : Name × PS :=
   let (g, n) := genCall s.vars b.toList
-  (String.ofList n, { s with vars := g })
+  (String.ofList n, { s with vars := g, newVars := s.newVars ++ [n] })
 
 def PS.freshId (s : PS) (b : String) : List Char × PS :=
   let (g, n) := genCall s.ids b.toList
-  (n, { s with ids := g })
+  (n, { s with ids := g, newIds := s.newIds ++ [n] })
 
 /-! `pymbolic.flatten` (third party): the `Assign` constructor applies it to every right-hand side -/
 mutual
